@@ -67,7 +67,7 @@ fn urls<'a>(n: &'a Node, out: &mut Vec<(String, String)>) {
 
 /// what a browser makes of an attribute value: EVERY character reference is decoded (numeric ones also
 /// without the final semicolon), one pass
-fn attr_unescape(s: &str) -> String {
+pub fn attr_unescape(s: &str) -> String {
     let b: Vec<char> = s.chars().collect();
     let mut o = String::new();
     let mut i = 0;
